@@ -48,8 +48,22 @@ pub fn run(args: &Args) {
         let sid = sess["id"].clone();
         let mut artifact: Option<SearchArtifact> = None;
         let mut recorded: Vec<State> = vec![];
+        let mut last_root: Option<State> = None;
+        let mut last_line: Vec<Move> = vec![];
         for (si, st) in sess["steps"].as_array().unwrap().iter().enumerate() {
-            let state = state_of_fen(st["fen"].as_str().unwrap());
+            // "follow": k - the game goes on along the line the previous search reported (k plies of it), as when the opponent
+            // answers as expected; without such a line the session ends
+            let state = if let Some(k) = st["follow"].as_u64() {
+                let (Some(r), true) = (last_root.as_ref(), last_line.len() >= k as usize) else { break };
+                let mut s2 = r.clone();
+                let mut okay = true;
+                for m in last_line.iter().take(k as usize) {
+                    match State::by_performing_move(&s2, m) { Ok(n) => s2 = n, Err(_) => { okay = false; break; } }
+                }
+                if !okay || MoveGenerator::compute_legal_moves(&s2).moves().is_empty() { break; }
+                s2
+            } else { state_of_fen(st["fen"].as_str().unwrap()) };
+            let st_fen = fen_of(&state);
             let depth = st["depth"].as_u64().map(|d| d as usize);
             let seed = st["seed"].as_u64().unwrap_or(1);
             let workers = st["workers"].as_u64().map(|w| w as usize);
@@ -72,7 +86,7 @@ pub fn run(args: &Args) {
             let mut hist_hashes: Vec<String> = recorded.iter().map(|h| format!("{:016x}", verif::artifact_hash(&a, h))).collect();
             hist_hashes.push(format!("{:016x}", verif::artifact_hash(&a, &state)));
 
-            out.ev(json!({"ev": "SearchStart", "sid": sid, "step": si, "root": pos_json(&state), "fen": st["fen"], "depth": depth.map(|d| d as i64).unwrap_or(-1), "seed": seed.to_string(),
+            out.ev(json!({"ev": "SearchStart", "sid": sid, "step": si, "root": pos_json(&state), "fen": st_fen, "depth": depth.map(|d| d as i64).unwrap_or(-1), "seed": seed.to_string(),
                           "workers": workers.unwrap_or(0), "fresh": fresh, "history": hist.iter().map(pos_json).collect::<Vec<_>>(), "history_keys": hist_hashes,
                           "root_key": format!("{:016x}", verif::artifact_hash(&a, &state)),
                           "history_len_before": verif::history_len(&a), "entries_before": verif::table_entries(&a), "cancel_at": cancel_at.map(|c| c as i64).unwrap_or(-1),
@@ -85,10 +99,14 @@ pub fn run(args: &Args) {
             let _ = verif::take_log();
             let t0 = Instant::now();
             let mut events: Vec<Value> = vec![];
+            let mut line_seen: Vec<Move> = vec![];
             let max_ms = st["max_ms"].as_u64().unwrap_or(if cancel_at.is_some() { 30_000 } else { 600_000 });
             DEADLINE_MS.store(wd0.elapsed().as_millis() as u64 + max_ms, std::sync::atomic::Ordering::SeqCst);
             let res = guarded(std::panic::AssertUnwindSafe(|| {
-                verif::analyze_sync(state.clone(), seed, depth, workers, Some(a), cancel_at, &mut |e| { if events.len() < 5000 { events.push(status_event_json(&e)) } })
+                verif::analyze_sync(state.clone(), seed, depth, workers, Some(a), cancel_at, &mut |e| {
+                    if let StatusEvent::BestMove { line, .. } = &e { line_seen = line.clone(); }
+                    if events.len() < 5000 { events.push(status_event_json(&e)) }
+                })
             }));
             DEADLINE_MS.store(u64::MAX, std::sync::atomic::Ordering::SeqCst);
             let ms = t0.elapsed().as_millis() as u64;
@@ -105,6 +123,8 @@ pub fn run(args: &Args) {
                                   "sched": {"grants": sched.0, "switches": sched.1, "degraded": sched.2}}));
                     artifact = Some(o.artifact);
                     recorded.push(state.clone());
+                    last_root = Some(state.clone());
+                    last_line = line_seen.clone();
                 }
                 Err(msg) => {
                     out.ev(json!({"ev": "SearchEnd", "status": "panic", "msg": msg, "ms": ms, "ms_after_cancel": -1, "nodes": 0, "nodes_after_cancel": 0, "history_len": 0, "entries": 0,
@@ -330,6 +350,7 @@ pub fn mate_mine(args: &Args) {
         Some("doomed") => return mate_mine_shapes(args, "doomed"),
         Some("terminals") => return mate_mine_terminals(args),
         Some("crowded") => return mate_mine_crowded(args),
+        Some("horizon") => return mate_mine_horizon(args),
         _ => {}
     }
     let count: usize = args.num("--count", 10);
@@ -706,6 +727,45 @@ fn mate_mine_crowded(args: &Args) {
             if found.len() < count && found.insert(fen.clone()) { out.raw(&fen); }
             break;
         }
+    }
+    out.finish();
+    println!("{}", json!({"found": found.len()}));
+}
+
+/// wv mate-mine --mode horizon : positions without a forced mate within 5 plies in which some checking move can be answered by
+/// capture evasions that all run into an immediate mating capture, and by a quiet evasion that does not. (What a capture search
+/// that looks at captures only, when in check, gets wrong.) Untrusted input generator.
+fn mate_mine_horizon(args: &Args) {
+    use rand::SeedableRng;
+    let count: usize = args.num("--count", 12);
+    let seed: u64 = args.num("--seed", 1);
+    let tries: usize = args.num("--tries", 3_000_000);
+    let mut rng = rand_chacha::ChaCha8Rng::seed_from_u64(seed);
+    let mut out = Out::new(args.get("--out"));
+    let mut found = std::collections::BTreeSet::new();
+    let is_mate = |s: &State| s.is_check() && MoveGenerator::compute_legal_moves(s).moves().is_empty();
+    for _ in 0..tries {
+        if found.len() >= count { break; }
+        let Some(fen) = random_position(&mut rng, 8) else { continue };
+        let root = state_of_fen(&fen);
+        if root.is_check() { continue; }
+        let moves = MoveGenerator::compute_legal_moves(&root);
+        let mut hit = None;
+        for r in moves.moves().iter() {
+            if !r.1.is_check() { continue; }
+            let replies = MoveGenerator::compute_legal_moves(&r.1);
+            let caps: Vec<&MoveResult> = replies.moves().iter().filter(|x| x.0.capture().is_some()).collect();
+            let quiets: Vec<&MoveResult> = replies.moves().iter().filter(|x| x.0.capture().is_none()).collect();
+            if caps.is_empty() || quiets.is_empty() { continue; }
+            let caps_lose = caps.iter().all(|c| MoveGenerator::compute_legal_moves(&c.1).moves().iter().any(|y| y.0.capture().is_some() && is_mate(&y.1)));
+            if !caps_lose { continue; }
+            let quiet_holds = quiets.iter().any(|q| { let mut b = 20_000i64; win_in(&q.1, 3, None, &mut b).is_none() && b >= 0 });
+            if quiet_holds { hit = Some(r.0); break; }
+        }
+        let Some(m) = hit else { continue };
+        let mut budget = 400_000i64;
+        if win_in(&root, 5, None, &mut budget).is_some() || budget < 0 { continue; }
+        if found.insert(fen.clone()) { out.raw(&format!("{}  # {} checks; capture evasions lose to a mating capture, a quiet evasion holds; no forced mate within 5 plies", fen, mv_str(&m))); out.flush(); }
     }
     out.finish();
     println!("{}", json!({"found": found.len()}));
